@@ -160,8 +160,8 @@ def checkC16 (root : Elem) (steps : List OpStep) (renders : List (Options × Nam
       let final := (steps.getLast?.map (·.tree)).getD root
       if !Elem.namesOK final then .ok else
       firstBad (renders.map fun (o, txt) => fun _ =>
-        match readProgram txt with
-        | none => .prop "rendered text is not a sequence of struct items"
+        match readProgramN txt with
+        | none => .corr "the model's reader cannot read the rendered text as a sequence of struct items"
         | some prog =>
           if !decide (WellFormed prog) then .prop s!"rendering of a hand-built tree is not well-formed: {showElem final}"
           else if isQuickUnsorted o && plainNames final.abs.bind && final.abs.noPrefixClash then
@@ -502,8 +502,8 @@ def handleD (prop : String) (ts : List String) : Option Verdict := do
     else if !plainNames spec.bind then .gen "reserved-binding-names"
     else if !doms.all Node.dataOriented then .gen "mixed-content"
     else if prop == "C13" && !doms.all Node.sxrScope then .gen "outside-serde-xml-rs-scope"
-    else match readProgram txt with
-    | none => .prop "rendered text is not a sequence of struct items"
+    else match readProgramN txt with
+    | none => .corr "the model's reader cannot read the rendered text as a sequence of struct items"
     | some prog =>
       let mCompiles := decide (Compiles prog)
       firstBad [
